@@ -111,6 +111,7 @@ var qStrings = []string{"", "a", "ab", "b", "B", "a ", "aa", "\xc3\xa9", "z", "0
 var qInts = []int64{math.MinInt64, -1, 0, 1, 7, 7, math.MaxInt64, 1 << 31, -(1 << 31) - 1, 42}
 var qInt32s = []int64{math.MinInt32, -1, 0, 5, 5, math.MaxInt32, 42}
 var qFloats = []float64{math.Inf(-1), -2.0, math.Copysign(0, -1), 0.0, 1.5, 1.5, math.SmallestNonzeroFloat64, math.Inf(1), 1e308, -1e-300, 42}
+var qTimeCluster = [][2]int64{{100, 5}, {100, 4}, {100, 5}, {99, 999999999}, {100, 0}, {101, 0}, {100, 999999999}}
 var qTimes = [][2]int64{{-1, 0}, {0, 0}, {100, 5}, {100, 4}, {100, 5}, {253402300799, 999999999}, {-62135596800, 0}, {1700000000, 123456789}, {99, 999999999}}
 
 func qGenDataset(r *rng, n int, nan bool) *qDataset {
@@ -154,6 +155,10 @@ func qGenDataset(r *rng, n int, nan bool) *qDataset {
 					c = qCell{kind: 'B', b: r.chance(50)}
 				case 't':
 					t := qTimes[r.intn(len(qTimes))]
+					if r.chance(40) {
+						// instants within the same second (only the nanoseconds differ) and its neighbours
+						t = qTimeCluster[r.intn(len(qTimeCluster))]
+					}
 					c = qCell{kind: 'T', sec: t[0], nsec: t[1]}
 				}
 			}
@@ -176,6 +181,33 @@ func qGenDataset(r *rng, n int, nan bool) *qDataset {
 	}
 	if n == 0 {
 		d.noBucket = r.chance(50)
+	}
+	return d
+}
+
+// qProbeDataset is a fixed dataset whose columns are each ordered *against* the id order by their
+// finest distinctions (instants within one second, integers beyond 2^53, floats beyond float32
+// precision, -0.0 / 0.0, string prefixes, upper/lower case), so that a comparator that loses one of
+// them is caught by every run whatever the seed
+func qProbeDataset() *qDataset {
+	S := func(v string) qCell { return qCell{kind: 'S', s: v} }
+	I := func(v int64) qCell { return qCell{kind: 'I', i: v} }
+	J := func(v int64) qCell { return qCell{kind: 'I', i: v, as32: true} }
+	F := func(v float64) qCell { return qCell{kind: 'F', f: math.Float64bits(v)} }
+	B := func(v bool) qCell { return qCell{kind: 'B', b: v} }
+	T := func(sec, nsec int64) qCell { return qCell{kind: 'T', sec: sec, nsec: nsec} }
+	N := qCell{kind: 'N'}
+	NA := qCell{kind: 'N', absent: true}
+	d := &qDataset{}
+	d.rows = []qRow{
+		{"a", []qCell{S("b"), I(math.MaxInt64), J(5), F(1e308), B(true), T(101, 0), B(true), I(0)}},
+		{"b", []qCell{S("ab"), I(math.MaxInt64 - 1), J(5), F(1.5000000000000002), B(false), T(100, 999999999), B(false), I(1)}},
+		{"c", []qCell{S("aa"), I(1<<53 + 1), J(math.MaxInt32), F(1.5), N, T(100, 5), N, I(2)}},
+		{"d", []qCell{S("a "), I(1 << 53), J(math.MinInt32), F(5e-324), B(true), T(100, 4), B(true), I(3)}},
+		{"e", []qCell{S("a"), I(0), NA, F(0.0), B(false), T(100, 0), B(false), I(4)}},
+		{"f", []qCell{S("B"), I(-1), J(0), F(math.Copysign(0, -1)), NA, T(99, 999999999), B(true), I(2)}},
+		{"g", []qCell{S(""), I(math.MinInt64), J(-1), F(-2), B(true), T(-1, 0), NA, I(1)}},
+		{"h", []qCell{NA, N, J(5), N, B(false), N, B(false), I(3)}},
 	}
 	return d
 }
@@ -450,7 +482,16 @@ func qRunBolt(db *bbolt.DB, store boltz.ConfigurableStore, text string) string {
 
 // ---- generation -----------------------------------------------------------------------------------
 
-func i64p(v int64) *int64 { return &v }
+func qI64p(v int64) *int64 { return &v }
+
+// qRng decorrelates consecutive seeds (the streams of newRng(k) and newRng(k+1) are the same
+// sequence shifted by one step) by hashing the seed first
+func qRng(seed int64, salt uint64) *rng {
+	z := uint64(seed)*0xD1342543DE82EF95 + salt
+	z = (z ^ (z >> 32)) * 0xDABA0B6EB09322E3
+	z = (z ^ (z >> 29)) * 0x94D049BB133111EB
+	return newRng(int64(z ^ (z >> 32)))
+}
 
 type qPaging struct {
 	skip  *int64
@@ -460,8 +501,8 @@ type qPaging struct {
 
 // the bounded-exhaustive paging grid of DESIGN.md 5 (C02), relative to the dataset size n
 func qPagingGrid(n int64) []qPaging {
-	skips := []*int64{nil, i64p(0), i64p(-1), i64p(-5), i64p(1), i64p(n - 1), i64p(n), i64p(n + 3), i64p(1 << 62), i64p(math.MinInt64), i64p(math.MaxInt64)}
-	limits := []qPaging{{}, {none: true}, {limit: i64p(0)}, {limit: i64p(1)}, {limit: i64p(n)}, {limit: i64p(-1)}, {limit: i64p(-7)}, {limit: i64p(1 << 62)}, {limit: i64p(math.MaxInt64)}}
+	skips := []*int64{nil, qI64p(0), qI64p(-1), qI64p(-5), qI64p(1), qI64p(n - 1), qI64p(n), qI64p(n + 3), qI64p(1 << 62), qI64p(math.MinInt64), qI64p(math.MaxInt64)}
+	limits := []qPaging{{}, {none: true}, {limit: qI64p(0)}, {limit: qI64p(1)}, {limit: qI64p(n)}, {limit: qI64p(-1)}, {limit: qI64p(-7)}, {limit: qI64p(1 << 62)}, {limit: qI64p(math.MaxInt64)}}
 	var grid []qPaging
 	for _, s := range skips {
 		for _, l := range limits {
@@ -556,8 +597,8 @@ func runC02(o *opts) error {
 		return c02Replay(o, qb, rp, cases, impl)
 	}
 
-	r := newRng(o.seed)
-	nData, nSortsPer := 5, 9
+	r := qRng(o.seed, 0xC02)
+	nData, nSortsPer := 5, 8
 	if o.thorough() {
 		nData, nSortsPer = 80, 10
 	}
@@ -588,6 +629,10 @@ func runC02(o *opts) error {
 		}
 		nan := di%5 == 4
 		d := qGenDataset(r, n, nan)
+		if di == 0 {
+			d = qProbeDataset()
+			n = len(d.rows)
+		}
 		store, err := qb.load(d)
 		if err != nil {
 			return err
@@ -619,18 +664,30 @@ func runC02(o *opts) error {
 				emit(d, store, kind, &qQuery{filter: filter, sort: fs, skip: pg.skip, limit: pg.limit, none: pg.none})
 			}
 		}
+		// every systematic specification on every dataset, with a few representative pages
+		short := []qPaging{{}, {skip: qI64p(1)}, {skip: qI64p(1), limit: qI64p(2)}, {skip: qI64p(-1), limit: qI64p(int64(n))},
+			{none: true}, {skip: qI64p(int64(n) - 1)}, {limit: qI64p(int64(n) - 1)}}
+		for _, fs := range systematic {
+			filter := 0
+			if r.chance(30) {
+				filter = r.intn(len(qFilters))
+			}
+			for _, pg := range short {
+				emit(d, store, kind, &qQuery{filter: filter, sort: fs, skip: pg.skip, limit: pg.limit, none: pg.none})
+			}
+		}
 		// random paging values around the boundaries, random everything else
 		for k := 0; k < 40; k++ {
 			q := &qQuery{filter: r.intn(len(qFilters)), sort: qRandomSort(r, 5)}
 			if r.chance(75) {
-				q.skip = i64p(int64(r.intn(n+4)) - 2)
+				q.skip = qI64p(int64(r.intn(n+4)) - 2)
 			}
 			switch r.intn(4) {
 			case 0:
 			case 1:
 				q.none = true
 			default:
-				q.limit = i64p(int64(r.intn(n+3)) - 1)
+				q.limit = qI64p(int64(r.intn(n+3)) - 1)
 			}
 			emit(d, store, kind, q)
 		}
